@@ -56,6 +56,12 @@ class CallMixin(object):
                 qual = self.const_str(self.eval(st, e.args[0]))
                 expr = self.const_str(self.eval(st, e.args[1]))
                 return V(mkB(self.calls_satisfy(st, qual, expr, fr.contract)), parse_spec('bool'))
+            if n == 'attr_of':
+                return self.glist_attr(st, self.eval(st, e.args[0]), self.eval(st, e.args[1]))
+            if n == 'attr_count':
+                return self.glist_attr_count(st, self.eval(st, e.args[0]), self.eval(st, e.args[1]))
+            if n == 'attr_before':
+                return self.glist_attr_before(st, self.eval(st, e.args[0]), self.eval(st, e.args[1]), self.eval(st, e.args[2]))
             if n == 'calls_ordered':
                 a = self.const_str(self.eval(st, e.args[0]))
                 b = self.const_str(self.eval(st, e.args[1]))
@@ -549,6 +555,40 @@ class CallMixin(object):
         if name == 'copy':
             return gl.copy()
         raise EngineError('method %s on local list' % name)
+
+    def _pairs(self, gl):
+        """entries of a guarded attribute list as (guard, key V, value V)"""
+        if isinstance(gl, PyTuple):
+            gl = GList([GEntry(z3.BoolVal(True), x) for x in gl.items])
+        if not isinstance(gl, GList):
+            raise EngineError('attr_of: attribute list is not a locally built list')
+        out = []
+        for en in gl.entries:
+            if not (isinstance(en.val, PyTuple) and len(en.val.items) == 2):
+                raise EngineError('attr_of: entry is not a (name, value) pair')
+            out.append((en.guard, en.val.items[0], en.val.items[1]))
+        return out
+
+    def glist_attr(self, st, gl, name):
+        """value of the first present (name, value) pair with that name, else None"""
+        res = self.lift(None)
+        for g, k, v in reversed(self._pairs(gl)):
+            c = And(g, k.t == name.t)
+            res = V(Ite(c, v.t, res.t), None)
+        return res
+
+    def glist_attr_count(self, st, gl, name):
+        terms = [z3.If(And(g, k.t == name.t), 1, 0) for g, k, v in self._pairs(gl)]
+        return V(mkI(z3.Sum(terms) if terms else z3.IntVal(0)), parse_spec('int'))
+
+    def glist_attr_before(self, st, gl, a, b):
+        """some present pair named a stands before some present pair named b"""
+        ps = self._pairs(gl)
+        alts = []
+        for i, (g1, k1, _) in enumerate(ps):
+            for (g2, k2, _) in ps[i + 1:]:
+                alts.append(And(g1, g2, k1.t == a.t, k2.t == b.t))
+        return V(mkB(Or(*alts)), parse_spec('bool'))
 
     def local_guard(self, st):
         """Guard relative to the function entry (guards of guarded-list entries are absolute)."""
